@@ -788,6 +788,7 @@ def run(ctx):
                                    "foreign": round(sum(t for t, i in tw if by_id[i].get("foreign")), 1),
                                    "fault": round(sum(t for t, i in tw if by_id[i].get("fault_step")), 1)}
     cmds, meta = [], []
+    deferred, cat_match = [], {}
     mono_seen, mono_bad = [0], []
     for res in results:
         h = by_id[res["id"]]
@@ -819,8 +820,15 @@ def run(ctx):
                         d_[k_] = d_.get(k_, 0) + n_
                 ctx.extra["fault_runs"] = ctx.extra.get("fault_runs", 0) + st["faults"]["runs"]
             for sym, text in st["problems"]:
-                ctx.fail(classify(h, st, sym), {"history": h, "failing_step": i, "observed": text,
-                                                "trace": dsfs.trace_json(st.get("trace", []), 120)}, text)
+                cls = classify(h, st, sym)
+                case_ = {"history": h, "failing_step": i, "observed": text, "trace": dsfs.trace_json(st.get("trace", []), 120)}
+                if sym == "values-differ" and cls["kind"] in CAT_KINDS and cls["new_labels"]:
+                    # a categorical column whose batches carry different label lists: whether this is the KNOWN wrong behaviour (every row
+                    # group's codes read with the LAST dictionary: Dataset/CatRead.v read_cat) or another one is decided once the model has
+                    # answered - only the former is covered by the open finding
+                    deferred.append((cls, case_, text, (h["id"], i, st.get("bad_column"))))
+                else:
+                    ctx.fail(cls, case_, text)
             for name, obs in (st.get("cat") or {}).items():
                 if any(d is not None for d, _ in obs["chunks"]):
                     chunks, real = cat_model_io(obs)
@@ -881,8 +889,12 @@ def run(ctx):
             continue
         if kind == "cat":
             ctx.count("categorical_reads", "dictionaries differ" if short["dictionaries_differ"] else "one dictionary")
-            ctx.correspondence("CatRead.read_cat(per-row-group dictionaries and codes) = categorical column of the whole read", short,
-                               [list(x) for x in o] if isinstance(o, list) else o, st)
+            mo_ = [list(x) for x in o] if isinstance(o, list) else o
+            cat_match[(short["history"], short["step"], short["column"])] = (mo_ == st)
+            if (short["history"], short["step"], short["column"]) not in [d_[3] for d_ in deferred]:
+                ctx.correspondence("CatRead.read_cat(per-row-group dictionaries and codes) = categorical column of the whole read", short, mo_, st)
+            else:
+                ctx.count("categorical_failures", "output = the relabelling model" if mo_ == st else "output differs from the relabelling model, too")
             continue
         if kind == "strict":
             # information: the stricter relation `safe_trace` (_metadata before _common_metadata), which the code implements today
@@ -910,6 +922,11 @@ def run(ctx):
             seq_model["equal" if same else "different"] += 1
             if not same and len(seq_model["examples"]) < 3:
                 seq_model["examples"].append({"case": short, "model": str(model)[:200], "real": [st["loc"], len(st["after"])]})
+    for cls, case_, text, key in deferred:
+        cls["as_relabel_model"] = bool(cat_match.get(key, True))      # (no model answer - more than 12 row groups: counted as the known behaviour)
+        if not cls["as_relabel_model"]:
+            text += " [the values are NOT what reading every row group with the last dictionary gives either: not the known relabelling]"
+        ctx.fail(cls, case_, text)
     ctx.extra["strict_safe_trace_on_recorded_traces"] = strict
     ctx.extra["safe_trace_sym_on_recorded_traces"] = sym_info
     ctx.extra["append_seq_model_vs_real_bytes"] = seq_model
